@@ -38,12 +38,15 @@ type gInfo struct {
 // waitingStatus: the goroutine is parked by the runtime on a synchronisation
 // object. A goroutine woken by close/send/unlock is made runnable synchronously
 // by the waker, so "all relevant goroutines are in a waiting status" is a stable
-// condition, not a timing guess.
+// condition, not a timing guess. Plain "semacquire" is NOT in the list: it is the
+// runtime-internal wait (a goroutine that wants to start a GC cycle queues on
+// the world semaphore that the controller's own runtime.Stack snapshot holds),
+// i.e. a transient state caused by the observation itself.
 func waitingStatus(s string) bool {
 	switch s {
 	case "select", "chan receive", "chan send", "select (no cases)",
 		"sync.Mutex.Lock", "sync.RWMutex.Lock", "sync.RWMutex.RLock",
-		"semacquire", "sync.WaitGroup.Wait", "sync.Cond.Wait",
+		"sync.WaitGroup.Wait", "sync.Cond.Wait",
 		"chan receive (nil chan)", "chan send (nil chan)":
 		return true
 	}
